@@ -36,7 +36,11 @@ def _setup():
             from contracts.spec import relevance
         except ImportError:
             relevance = None
-        _STATE.update(reg=reg, ftypes=ftypes, lemmas=lemmas, prog=prog, relevance=relevance)
+        try:
+            from contracts.spec import CACHED
+        except ImportError:
+            CACHED = None
+        _STATE.update(reg=reg, ftypes=ftypes, lemmas=lemmas, prog=prog, relevance=relevance, cache_keys=CACHED)
     return _STATE
 
 
@@ -81,6 +85,7 @@ def verify_item(item, timeout_ms=None):
                 raise OutsideSubset(f"drift: {name} no longer exists in the program")
             rep["file"], rep["line"], rep["source_hash"] = fi.file, fi.line, fi.source_hash()
             eng = Engine(st["prog"], st["reg"], st["ftypes"])
+            eng.expected_cache_keys = st.get("cache_keys")
             obl, info = eng.verify(con)
             rep["paths"] = info["paths"]
             rep["notes"] = list(eng.notes)
